@@ -39,6 +39,14 @@ CHECKS = {
    technique="deterministic simulation: seeded schedules and thread faults over the real package builder; invariants during the run (no panic, no lock time-out, bounded simulated time, each module analysed once) and execution of the produced .pyc",
    text="Seeded exploration of generated import graphs (DAG, chain, diamond, fan-out, self-import, 2-/3-cycles, shared-node cycles) under seeded schedules: every run must terminate (panic, signal, lock time-out, simulated-time cap and step cap are violations), analyse each module exactly once, report no error for an error-free project, and the program must print every module tag once and the checksum the generator computed.",
    note="Liveness is bounded simulated time (600 s cap) - never 'within K steps while faults flow'; cycle members are generated in the style of tests/should_ok/cyclic (richer cycles are a listed known finding); trusted: simrt, orchestrator, generator's own arithmetic."),
+ "C28": dict(engine="simthread", level="exploration", design="4 C28",
+   technique="deterministic simulation of the whole language server (about 30 threads) under seeded schedules and thread faults; reference-document oracle (UTF-16 model) after every notification",
+   text="Seeded exploration: notification histories (1-3 documents with ASCII/BMP/astral text, 1-30 didChange notifications of 1-3 range changes, requests in flight, think-times around the 500 ms poll) are dispatched to the real server under one seeded schedule each; after every notification and at quiescence the server's FileCache and VFS copies must equal the client's document; no thread may panic, no lock may time out, and a closing request must be answered within 5 s of simulated time.",
+   note="LSP transport ordered and reliable (no transport faults); positions on code-point boundaries, \\n line ends, lines inside the document; trusted: the Python reference document, simrt."),
+ "C29": dict(engine="simthread", level="exploration", design="4 C29",
+   technique="deterministic simulation with a simulated clock: edit histories with seeded think-times against the real server under seeded schedules, differential oracle against a fresh server that only opens the final text",
+   text="Seeded exploration: edit histories that add, delete and modify top-level definitions (one or several per notification, optional didSave, auto-save off/afterDelay, think-times around the 500 ms auto-diagnostics poll, late timers) run under seeded schedules; at quiescence (3.5 s simulated after the last event) the last publishDiagnostics per document must equal, as a multiset of (range, severity, message), what a freshly started server publishes for the final text.",
+   note="Quiescence = 3.5 s simulated after the last event (7 poll periods); the fresh twin runs under the default schedule; trusted: simrt, the orchestrator's diff."),
  "C21": dict(engine="simthread", level="exploration", design="4 C21",
    technique="deterministic simulation of 2-3 caller threads on the real SharedModuleGraph with Wing-Gong linearizability checking against a reference graph; plus operation-by-operation refinement checking of single-caller histories",
    text="Seeded histories over 6 paths: single-caller histories (<=40 ops) compared with a 60-line reference graph after every operation (return values and the full query matrix, ordering promise of sort); multi-caller histories (<=12 ops) interleaved by the simulator at the Shared lock hooks and checked for linearizability.",
@@ -50,8 +58,7 @@ def main():
     claimed = [c for c in sorted(CHECKS) if os.environ.get("ONLY") is None or c in os.environ["ONLY"].split(",")]
     pending = {"C15": "claimed in DESIGN.md (simio: stored-image faults); check not built yet in this commit",
                "C25": "claimed in DESIGN.md (simio: stream faults); check not built yet in this commit",
-               "C28": "claimed in DESIGN.md (simthread on the language server); check not built yet in this commit",
-               "C29": "claimed in DESIGN.md (simthread + simulated clock on the language server); check not built yet in this commit"}
+               }
     na = dict(NA)
     for k, v in pending.items():
         if k not in CHECKS:
